@@ -12,7 +12,8 @@
 From Coq Require Import ZArith NArith List Bool String.
 From AGH Require Import Base.Run Model.QLogFile Model.QLog Model.QLogCodec Proofs.QLog Proofs.QLogCursor Proofs.QLogCodec
   Proofs.QLogCodecScan Proofs.QLogCodecDec Proofs.QLogCodecLoc Proofs.QLogFold Proofs.QLogCodecAll
-  Model.QLogServe Proofs.QLogServe Model.QLogRotate Proofs.QLogRotate.
+  Model.QLogServe Proofs.QLogServe Model.QLogRotate Proofs.QLogRotate Model.QLogClients Proofs.QLogClients.
+From AGH Require Model.ClientIndex Proofs.ClientIndex.
 Import ListNotations.
 Local Open Scope Z_scope.
 
@@ -515,8 +516,9 @@ Theorem C07_rotation_only_when_due_fixed : forall s ivl now mid,
 Proof. exact rotation_only_when_due_fixed. Qed.
 Print Assumptions C07_rotation_only_when_due_fixed.
 
-(** REFUTED for the code as it is (finding, reproduced against the real code
-    under strace delay injection): the check finds no querylog.json and goes
+(** REFUTED for the code as it was before 011b417 ([missing_is_old] = true;
+    the finding was reproduced against the real code under strace delay
+    injection and repaired by the lead with the early return): the check finds no querylog.json and goes
     on; one DNS request records and flushes (mem_size 1); the rename moves that
     5 ns old file over querylog.json.1: record 2, 15 ns old against an interval
     of 1000, is gone without a clear.  The same history with the early return
@@ -529,3 +531,163 @@ Theorem C07_rotation_only_when_due_refuted :
   has_id 2 (flat (rs (rrun false w_state (RCheck 1000 1020 :: map RPlain w_mid ++ [RRename])))) = true.
 Proof. exact rotation_only_when_due_refuted. Qed.
 Print Assumptions C07_rotation_only_when_due_refuted.
+
+(** * Round 4: client names over the registry of C04; the status table
+
+    Model/QLogClients.v mirrors queryLog.client (search.go), home's
+    findMultiple / clientOrArtificial and client.Storage.FindLoose on the
+    registry of Model/ClientIndex.v (C04).  [clients_table rg pt texts] is
+    the FindClient table of Model/QLog.v COMPUTED from the registry for the
+    identifier texts of a case; [qlog_client rg pt e] is the owner of entry
+    [e]; [covered texts e]: the ClientID and address texts of [e] are among
+    [texts]. *)
+
+(** The table lookup of the log model is the registry lookup. *)
+Theorem C07_client_table_is_registry : forall rg pt texts c e,
+  clients c = clients_table rg pt texts -> covered texts e ->
+  find_client c e = qlog_client rg pt e.
+Proof. exact find_client_registry. Qed.
+Print Assumptions C07_client_table_is_registry.
+
+(** A search term selects exactly the visible entries that carry it in host,
+    ClientID or address, or whose OWNER has it in its name, newest first;
+    wherever the entries sit (memory, current file, rotated file). *)
+Theorem C07_name_term_selects_owner : forall me bf s p rg pt texts v a strict,
+  0 < me <= bf -> wf me s ->
+  clients (cfg s) = clients_table rg pt texts ->
+  (forall e, In e (flatv s) -> covered texts e) ->
+  p_older p = None -> p_offset p = 0 -> p_crits p = [CTerm v a strict] ->
+  0 < p_limit p -> lenZ (flatv s) <= p_limit p ->
+  (p_scan p <= 0 \/ lenZ (on_disk s) <= p_scan p) ->
+  exists o, search me bf s p =
+    Ok (filter (selected rg pt (cfg s) v a strict) (rev (flatv s))) o.
+Proof. exact name_term_selects_owner. Qed.
+Print Assumptions C07_name_term_selects_owner.
+
+(** A term found in no host, ClientID or address: exactly the entries whose
+    owner's name matches. *)
+Theorem C07_pure_name_term : forall me bf s p rg pt texts v a strict,
+  0 < me <= bf -> wf me s ->
+  clients (cfg s) = clients_table rg pt texts ->
+  (forall e, In e (flatv s) -> covered texts e) ->
+  (forall e, In e (flatv s) -> fields_match e v a strict = false) ->
+  p_older p = None -> p_offset p = 0 -> p_crits p = [CTerm v a strict] ->
+  0 < p_limit p -> lenZ (flatv s) <= p_limit p ->
+  (p_scan p <= 0 \/ lenZ (on_disk s) <= p_scan p) ->
+  exists o, search me bf s p =
+    Ok (filter (fun e => negb (hidden rg pt (cfg s) e) && name_match (owner_name rg pt e) v strict)
+               (rev (flatv s))) o.
+Proof. exact pure_name_term. Qed.
+Print Assumptions C07_pure_name_term.
+
+(** Who the owner is: the ClientID decides when the registry knows it ... *)
+Theorem C07_owner_client_id_first : forall rg pt e c,
+  is_empty (e_cid e) = false ->
+  client_or_artificial rg (e_cid e) (parse_of pt (e_cid e)) = Some c ->
+  qlog_client rg pt e = Some c.
+Proof. exact owner_by_client_id. Qed.
+Print Assumptions C07_owner_client_id_first.
+
+(** ... and an entry without ClientID, or with one nobody owns, belongs to the
+    owner of its ADDRESS (the dimension of seeded change C07-G). *)
+Theorem C07_owner_falls_to_address : forall rg pt e,
+  (is_empty (e_cid e) = true \/ client_or_artificial rg (e_cid e) (parse_of pt (e_cid e)) = None) ->
+  is_empty (e_ip e) = false ->
+  qlog_client rg pt e = client_or_artificial rg (e_ip e) (parse_of pt (e_ip e)).
+Proof. exact owner_by_address. Qed.
+Print Assumptions C07_owner_falls_to_address.
+
+(** Storage.FindLoose against the request-time lookup of C04. *)
+Theorem C07_find_loose_is_acf : forall rg id a,
+  find_loose rg a id (Some a) =
+  match ClientIndex.acf_find (rg_ix rg) (dhcp_of rg) id a with
+  | Some u => Some u
+  | None => match dhcp_of rg a with Some _ => None | None => find_by_ip_without_zone (rg_ix rg) a end
+  end.
+Proof. exact find_loose_acf. Qed.
+Print Assumptions C07_find_loose_is_acf.
+
+(** On a consistent registry (every registry reached by Add / Update /
+    RemoveByName: C04_index_consistent) the persistent owner of an address
+    follows C04's precedence: ClientID, exact address, longest containing
+    prefix, lease MAC. *)
+Theorem C07_find_loose_precedence : forall rg id a u,
+  Proofs.ClientIndex.Inv (rg_ix rg) ->
+  ClientIndex.acf_find (rg_ix rg) (dhcp_of rg) id a = Some u ->
+  find_loose rg a id (Some a) = Some u /\
+  Proofs.ClientIndex.resolves (rg_ix rg) (dhcp_of rg) id a (Some u).
+Proof. exact find_loose_precedence. Qed.
+Print Assumptions C07_find_loose_precedence.
+
+Theorem C07_owner_of_client_id : forall rg id u,
+  Proofs.ClientIndex.Inv (rg_ix rg) -> dhcp_of rg zero_addr = None ->
+  (find_loose rg zero_addr id None = Some u <->
+   Proofs.ClientIndex.owner_of (rg_ix rg) ClientIndex.c_cids id u).
+Proof. exact find_loose_client_id. Qed.
+Print Assumptions C07_owner_of_client_id.
+
+Theorem C07_zone_less_owner : forall rg a u,
+  Proofs.ClientIndex.Inv (rg_ix rg) -> find_by_ip_without_zone (rg_ix rg) a = Some u ->
+  snd a = [] /\ exists z, Proofs.ClientIndex.owner_of (rg_ix rg) ClientIndex.c_ips (fst a, z) u.
+Proof. exact find_by_ip_without_zone_owner. Qed.
+Print Assumptions C07_zone_less_owner.
+
+(** Premises are satisfiable: Laptop owns 192.168.1.5, Phone the ClientID
+    "ph"; an entry from that address with an ad-hoc ClientID is found under
+    "apt", the one with Phone's ClientID is not. *)
+Theorem C07_owner_example :
+  let e1 := Build_entry 1 10 100 [97%N] Ex.ip5 [97;100;104;111;99]%N 0 false in
+  let e2 := Build_entry 2 20 100 [98%N] Ex.ip5 [112;104]%N 0 false in
+  let texts := [Ex.ip5; [97;100;104;111;99]%N; [112;104]%N] in
+  let c := Build_config true true 4 [] (clients_table Ex.rg Ex.pt texts) in
+  let s := run c [OAdd e1; OAdd e2] in
+  Proofs.ClientIndex.Inv (rg_ix Ex.rg) /\
+  owner_name Ex.rg Ex.pt e1 = [76;97;112;116;111;112]%N /\
+  owner_name Ex.rg Ex.pt e2 = [80;104;111;110;101]%N /\
+  (forall e, In e (flatv s) -> covered texts e) /\
+  search max_entry_size buffer_size s (Build_params None 10 0 0 [CTerm [97;112;116]%N [] false]) = Ok [e1] 10.
+Proof. exact owner_example. Qed.
+Print Assumptions C07_owner_example.
+
+(** The response_status table: every cell (value x reason x IsFiltered) of
+    searchcriterion.go ctFilteringStatusCase is the cell of the table that
+    spells out the documentation of the values ([status_table]). *)
+Theorem C07_status_table : forall code r f,
+  0 <= code <= 9 -> In r reason_names ->
+  status_match code r f =
+  row_admits (nth (Z.to_nat code) status_table (Build_status_row (Some []) false false)) r f.
+Proof. exact status_table_spec. Qed.
+Print Assumptions C07_status_table.
+
+(** blocked / whitelisted / processed exclude each other for every reason
+    number and flag; none holds only for a block-list / blocked-service reason
+    without IsFiltered ... *)
+Theorem C07_status_partition : forall r f,
+  let b := status_match 2 r f in let w := status_match 6 r f in let p := status_match 9 r f in
+  (b && w = false) /\ (b && p = false) /\ (w && p = false) /\
+  (b || w || p = negb (reason_in r [3; 8] && negb f)).
+Proof. exact status_partition. Qed.
+Print Assumptions C07_status_partition.
+
+(** ... so with IsFiltered set exactly for the Filtered* reasons every entry is
+    in exactly one of the three. *)
+Theorem C07_status_partition_consistent : forall r f,
+  f = ((3 <=? r) && (r <=? 8)) ->
+  xorb (xorb (status_match 2 r f) (status_match 6 r f)) (status_match 9 r f) = true /\
+  (status_match 2 r f && status_match 6 r f = false) /\
+  (status_match 2 r f && status_match 9 r f = false) /\
+  (status_match 6 r f && status_match 9 r f = false).
+Proof. exact status_partition_consistent. Qed.
+Print Assumptions C07_status_partition_consistent.
+
+Theorem C07_status_inclusions : forall r f,
+  (status_match 3 r f = true -> status_match 2 r f = true) /\
+  (status_match 2 r f = true -> status_match 1 r f = true) /\
+  (status_match 4 r f = true -> status_match 1 r f = true /\ status_match 9 r f = true) /\
+  (status_match 5 r f = true -> status_match 1 r f = true /\ status_match 9 r f = true) /\
+  (status_match 8 r f = true -> status_match 1 r f = true /\ status_match 9 r f = true) /\
+  (status_match 6 r f = true -> status_match 1 r f = true) /\
+  (status_match 7 r f = true -> status_match 1 r f = true /\ status_match 9 r f = true) /\
+  (forall code, status_match code r f = true -> status_match 0 r f = true).
+Proof. exact status_inclusions. Qed.
+Print Assumptions C07_status_inclusions.
